@@ -1292,8 +1292,12 @@ def oracle(case, obs):
                         kept = vals is not None and f not in given and not (f == 0 and a["scores"] is not None)
                         if kept:
                             wrong.append("inherited " + FLABEL[f])
-                if wrong and s["out"] != "EType" and s["out"] != "EValue":
-                    v.append(("bad-shape-accepted", f"step {si}: {wrong} do not have shape [{n}] but the constructor returned {s['out']}"))
+                # the claim is that NO LIST comes back; the class of the rejection is not part of it (a call with a
+                # wrongly shaped field may fail earlier for another reason, e.g. IndexError while the identifiers of a
+                # source with out-of-range numbers are computed for `vocabulary=`); the exact class per branch is compared
+                # with the model in `agree`, exceptions outside the model's vocabulary are `unexpected-exception`
+                if wrong and s["out"] is None:
+                    v.append(("bad-shape-accepted", f"step {si}: {wrong} do not have shape [{n}] but the constructor returned a list"))
                 if not wrong and o.get("bad") is None and s["out"] is not None and not (
                         op == "copy" and a["vocab"] is not None and s["out"] in ("EIndex",)):
                     v.append((f"spurious-error:{op}", f"step {si}: well-formed {op} raised {s['out']}"))
